@@ -11,6 +11,7 @@ pub const WAT_ENABLED: bool = true;
 mod decode;
 mod fixtures;
 mod props;
+mod refval;
 mod util;
 mod wacgen;
 mod witgen;
@@ -42,6 +43,7 @@ fn main() {
         "C03" => props::c03::run(&mut ctx),
         "C06" => props::c06::run(&mut ctx),
         "C07" => props::c07::run(&mut ctx),
+        "C08" => props::c08::run(&mut ctx),
         "C10" => props::c10::run(&mut ctx),
         "C12" => props::c12::run(&mut ctx),
         "C16" => props::c16::run(&mut ctx),
